@@ -26,6 +26,11 @@ impl Rng {
     pub fn pick<'a, T>(&mut self, v: &'a [T]) -> &'a T {
         &v[self.below(v.len())]
     }
+    /// an index into a collection of n elements, occasionally one past the end
+    pub fn index_near(&mut self, n: usize, den: usize) -> usize {
+        let extra = usize::from(self.chance(1, den));
+        self.below(n.max(1) + extra)
+    }
     pub fn fork(&mut self) -> Rng {
         Rng(self.next())
     }
